@@ -310,6 +310,48 @@ func (eng) Run(c core.CaseDesc, tier string) *core.CaseResult {
 		}()
 	}
 
+	// subscribers: the waiting API is called while the disposal goes on (the
+	// window between the disposing and the disposed flag included)
+	var subPanics []string
+	var subMx sync.Mutex
+	for g := 0; g < 2; g++ {
+		gr := rand.New(rand.NewPCG(c.Seed, uint64(100+g)))
+		mwg.Add(1)
+		go func() {
+			defer mwg.Done()
+			for i := 0; i < 3000 && !stop.Load(); i++ {
+				st := names[gr.IntN(len(names))]
+				api := []string{"When", "WhenNot", "WhenArgs", "WhenTime1", "WhenTicks", "NewStateCtx"}[gr.IntN(6)]
+				func() {
+					defer func() {
+						if rr := recover(); rr != nil {
+							subMx.Lock()
+							subPanics = append(subPanics, fmt.Sprintf("%s(%s): %v", api, st, rr))
+							subMx.Unlock()
+						}
+					}()
+					switch api {
+					case "When":
+						_ = m.When(am.S{st}, nil)
+					case "WhenNot":
+						_ = m.WhenNot(am.S{st}, nil)
+					case "WhenArgs":
+						_ = m.WhenArgs(st, am.A{"q": 1}, nil)
+					case "WhenTime1":
+						_ = m.WhenTime1(st, 99, nil)
+					case "WhenTicks":
+						_ = m.WhenTicks(st, 3, nil)
+					case "NewStateCtx":
+						_ = m.NewStateCtx(st)
+					}
+				}()
+				if i%7 == 0 {
+					runtime.Gosched()
+				}
+			}
+		}()
+	}
+
 	// drive to the landing point and dispose
 	armed.Store(true)
 	ctxInfo := map[string]any{"mode": mode, "origin": origin, "landing": landing, "handlers": withHandlers, "subs": len(open),
@@ -447,6 +489,13 @@ func (eng) Run(c core.CaseDesc, tier string) *core.CaseResult {
 	res.Key(mode, origin, landing, withHandlers, len(open) > 0)
 
 	viol := func(sig, what string) { res.Violate(sig, what, ctxInfo) }
+	subMx.Lock()
+	for _, p := range subPanics {
+		api := strings.SplitN(p, "(", 2)[0]
+		viol("C13/during/panic/"+api, "a subscription call made while the machine was being disposed panicked: "+p)
+		break
+	}
+	subMx.Unlock()
 	// 1. earlier waiters
 	for _, s := range open {
 		res.Evals++
